@@ -120,6 +120,26 @@ def execute(ctx, case):
         C(monitors.close_thr(ta, a * t + b, aspan), "thresholds do not map affinely under a*s+b", "sym-aff-thr", metric=m, targets=rs, t=t, t_affine_object=ta)
         if case["exact"]:
             C(np.array_equal(getattr(s, m)(t), getattr(af, m)(ta), equal_nan=True), "rates at the returned thresholds change under an exact affine map", "sym-aff-rate", metric=m)
+    if both and len(np.unique(allv)) >= 2 and bool(np.all(np.isfinite(allv))) and float(np.abs(allv).max()) < 1e150:
+        # the general threshold search on an integer number of grid points: the grid spans the scores end to end (its end points are scores, where
+        # the metric jumps), so the solutions of the negated object are the negated solutions. Claimed where no interior grid point sits within a
+        # few ulp of a score (the two mirror grids round differently there) and the target is crossed, not touched
+        p_ = [4, 7, 10, 11, 20, 50][case.get("_seed", 0) % 6]
+        grid_ = np.linspace(float(allv.min()), float(allv.max()), p_)
+        inner_ = grid_[1:-1]
+        near_ = inner_.size and bool(np.any(np.abs(inner_[:, None] - allv[None, :]) <= 64 * np.finfo(float).eps * float(np.abs(allv).max())))  # absolute: grid rounding is an ulp of the end points' magnitude, also next to zero
+        if not near_:
+            for m in ("fpr", "tpr", "topr"):
+                with monitors.oracle_scope_ctx():
+                    y_ = np.asarray(getattr(s, m)(grid_), dtype=float)
+                tg_ = np.array([t_ for t_ in np.asarray(rs, dtype=float).tolist() if y_.min() < t_ < y_.max() and not np.any(y_ == t_)])
+                if not tg_.size:
+                    continue
+                r1 = s.threshold_at_metric(tg_, m, points=p_)
+                r2 = ng.threshold_at_metric(tg_, m, points=p_)
+                ok_ = len(r1) == len(r2) and all(len(a1) == len(a2) and monitors.close_thr(np.sort(-np.asarray(a2, dtype=float)), np.asarray(a1, dtype=float), max(float(np.ptp(allv)), 1e-300)) for a1, a2 in zip(r1, r2))
+                C(ok_, "threshold_at_metric on an integer number of points: the solutions do not negate under negation + flipped score_class", "sym-neg-tam", metric=m, points=p_, targets=tg_,
+                  solutions=[np.asarray(a1) for a1 in r1], solutions_negated_object=[np.asarray(a2) for a2 in r2])
     if both:
         a0 = s.auc()
         C(abs(a0 - ng.auc()) <= 1e-12, "full AUC changes under negation", "sym-auc-neg", auc=a0, auc_neg=ng.auc())
@@ -145,8 +165,13 @@ def execute(ctx, case):
         pg = names[case["groups_u"][: len(pos)] % 3] if len(pos) else np.array([], dtype=str)
         ngp = names[case["groups_u"][len(pos): len(pos) + len(neg)] % 3] if len(neg) else np.array([], dtype=str)
         if len(pg) == len(pos) and len(ngp) == len(neg):
-            gs = GroupScores(pos, neg, pos_groups=pg, neg_groups=ngp, score_class=sc, equal_class=ec)
+            gkw = {}
+            if case.get("_seed", 0) % 3 == 0:  # an explicit (unsorted) list of group names fixes the order of the per-group rows - also on the swapped object
+                present = sorted(set(pg.tolist()) | set(ngp.tolist()))
+                gkw = {"group_names": np.array(present[::-1] if len(present) > 1 else present)}
+            gs = GroupScores(pos, neg, pos_groups=pg, neg_groups=ngp, score_class=sc, equal_class=ec, **gkw)
             gsw = gs.swap()
+            C([str(g) for g in gsw.groups] == [str(g) for g in gs.groups], "GroupScores.swap(): the list / order of groups changed", "sym-gswap-groups", groups=[str(g) for g in gs.groups], swapped=[str(g) for g in gsw.groups])
             for m in ("fpr", "tpr", "topr"):
                 C(np.array_equal(getattr(gs, "group_" + m)(ths), getattr(gsw, "group_" + MIRROR[m])(ths), equal_nan=True)
                   and np.array_equal(getattr(gs, m)(ths), getattr(gsw, MIRROR[m])(ths), equal_nan=True), "GroupScores.swap(): per-group rate differs from its mirror", "sym-gswap", metric=m)
